@@ -167,14 +167,27 @@ func (r *qLogReader) seekRecord(ctx context.Context, olderThan time.Time) (err e
 		return r.SeekStart()
 	}
 
-	err = r.seekTS(ctx, olderThan.UnixNano())
-	if err == nil {
-		// Read to the next record, because we only need the one that goes
-		// after it.
-		_, err = r.ReadNext()
+	olderThanNano := olderThan.UnixNano()
+	err = r.seekTS(ctx, olderThanNano)
+	if err != nil {
+		return err
 	}
 
-	return err
+	// Read to the next record, because we only need the one that goes after
+	// it.
+	line, err := r.ReadNext()
+	if err != nil {
+		return err
+	}
+
+	if ts := readQLogTimestamp(ctx, r.logger, line); ts != 0 && ts < olderThanNano {
+		// olderThan is newer than all records in the files, for example when
+		// it is the time of a record from the memory buffer, so seekTS has
+		// moved to the start, and the record just read is not the one to skip.
+		return r.SeekStart()
+	}
+
+	return nil
 }
 
 // setQLogReader creates a reader with the specified files and sets the
